@@ -420,6 +420,18 @@ func (w *world) afterEvent(n *simNode, ev evInfo, bf nodeBefore, outs []string, 
 			}
 		}
 		if vt != nil {
+			// the harness's own record of the lock: a correct member that sent a COMMIT for (h, p) was prepared in p,
+			// whatever its internal flags say now
+			lockView, locked := uint64(0), false
+			for _, sm := range n.sentLog {
+				if sm.Kind == "C" && sm.Ref.Height == vt.Height && sm.Ref.View < vt.View && (!locked || sm.Ref.View > lockView) {
+					lockView, locked = sm.Ref.View, true
+				}
+			}
+			if locked && !w.committedHeight(n, vt.Height) && (vt.Proof == nil || vt.Proof.PPRef.View < lockView) { // (a term whose commit callback failed may have sent its COMMIT without being prepared)
+				w.rep.finding("C09", "vote-does-not-carry-the-lock", fmt.Sprintf("node %d sent a COMMIT in view %d of height %d (so it was prepared there) and now votes for view %d with %s", n.id, lockView, vt.Height, vt.View,
+					map[bool]string{true: "no proof", false: "a proof of an earlier view"}[vt.Proof == nil]), w.traceInput())
+			}
 			if bf.prepared {
 				if vt.Proof == nil {
 					w.rep.finding("C09", "vote-without-proof-although-prepared", fmt.Sprintf("node %d was prepared in view %d and sent a VIEW_CHANGE for view %d without a proof", n.id, bf.pview, vt.View), w.traceInput())
